@@ -11,7 +11,7 @@ import shutil
 import tempfile
 
 from .. import gen
-from ..core import CaseTimeout, case_deadline, rng_for, short_tb
+from ..core import CaseTimeout, case_deadline, rng_for, short_tb, note_exc
 
 PROP = "C19"
 LEVEL = "exploration"
@@ -140,7 +140,7 @@ def run_case(case, res):
     except CaseTimeout:
         res.inconc("case watchdog fired")
     except Exception:
-        bad.append("exception: " + short_tb())
+        note_exc(res, bad, "exception escaped from the library: ")
     finally:
         shutil.rmtree(tmp, ignore_errors=True)
     if bad:
